@@ -591,6 +591,9 @@ func (g *G) Message(kind string) message.Message {
 		r := &message.RowsResult{Metadata: g.RowsMetadata(g.R.Bool())}
 		if !g.chance(8) {
 			n := g.Count(5)
+			if r.Metadata.ColumnCount == 0 {
+				n = 0 // a row has at least one column
+			}
 			r.Data = make(message.RowSet, n)
 			for i := range r.Data {
 				row := make(message.Row, r.Metadata.ColumnCount)
